@@ -11,9 +11,10 @@ the operations: `make … ctorF relF runB` (constructor / release step / task bo
 (stop handler raises), `start tcpF udpF`, `qstart … tcpF udpF peers` (start steps fail).  "Every population
 present at stop" = every well-formed state.  Layer C (`stop ‖ make`) quantifies over all schedules.
 
-Two clauses of the statement are **false** of the pinned tree; their full statements are kept
-(`failed_start_leaves_nothing_false`, `process_can_start_again_false`) next to what does hold
-(`…_partial`), and so is the `stop ‖ make` race (`race_exists`).
+History: on the pinned tree (04de7e7) two clauses were false — a failed start left the router thread and the
+singleton behind, and `stop ‖ make` had a race on the unregistered handler.  Both were repaired in /repo (d5615ad,
+104bb5b); the model mirrors the repaired code and the clauses are now proved at full strength
+(`failed_start_leaves_nothing`, `process_can_start_again`, `stop_make_all_schedules`).
 -/
 namespace QmiModel.Context
 
@@ -302,42 +303,37 @@ example : (run (Ctx.init false) [.start false false]).active = true ∧
 
 /-! ## a failed start -/
 
-/-- **False of the pinned tree** (full statement): a failed `start()` leaves nothing behind. -/
-def FailedStartLeavesNothing : Prop :=
-  ∀ (c : Ctx) (t u : Bool), (step c (.start t u)).2 ≠ .ok → (step c (.start t u)).1.residue = c.residue
-
-/-- negation witness: a fresh context with a TCP port configured, `bind` failing — the router thread stays
-(`QMI_Context.start` has no roll-back, and `stop()` then refuses: `double_start_stop_usage_error`).
-Replayed on the real code by harness/props/c12.py (`failed-start-residue:context:tcp`). -/
-theorem failed_start_leaves_nothing_false : ¬ FailedStartLeavesNothing := by
-  intro h
-  have := h (Ctx.init true) true false (by decide)
-  revert this
-  decide
-
-/-- what does hold: a failed start never touches the object map, the handler map, the live managers or the
-`active`/`used` flags; a refused start (already active, already used, router already up) leaves everything as it
-was; otherwise exactly the router thread and possibly the TCP listener are left. -/
-theorem failed_start_leaves_nothing_partial (c : Ctx) (t u : Bool) (hf : (step c (.start t u)).2 ≠ .ok) :
-    (step c (.start t u)).1.objMap = c.objMap ∧ (step c (.start t u)).1.handlers = c.handlers ∧
-    (step c (.start t u)).1.mgrs = c.mgrs ∧ (step c (.start t u)).1.active = c.active ∧
-    (step c (.start t u)).1.used = c.used ∧
-    ((c.active = true ∨ c.used = true ∨ c.routerUp = true) → (step c (.start t u)).1.residue = c.residue) ∧
-    ((step c (.start t u)).1.routerUp = true ∨ (step c (.start t u)).1.residue = c.residue) ∧
-    ((step c (.start t u)).1.conns = c.conns ∨ (step c (.start t u)).1.conns = c.conns ++ [.tcp]) := by
-  revert hf
+/-- A failed `start()` leaves nothing behind: whatever start step raises (TCP bind, UDP bind) and whatever refusal
+(`QMI_UsageException`), the object map, handler map, live managers (threads), sockets and router are exactly what they
+were, and so are all lifecycle flags (`active`, `used`, router, TCP port, stop handlers).  `RouterClean` ("a context
+whose router is down owns no socket") holds in every reachable state: `router_clean_reachable`. -/
+theorem failed_start_leaves_nothing (c : Ctx) (hc : RouterClean c) (t u : Bool)
+    (hf : (step c (.start t u)).2 ≠ .ok) :
+    (step c (.start t u)).1.residue = c.residue ∧ (step c (.start t u)).1.flags = c.flags := by
+  revert hf hc
+  unfold RouterClean
   cases hA : c.active <;> cases hU : c.used <;> cases hR : c.routerUp <;> cases hT : c.cfgTcp <;> cases t <;> cases u <;>
-    simp [step, start, hA, hU, hR, hT, Ctx.residue]
+    simp_all [step, start, routerStop, Ctx.residue, Ctx.flags]
 
-/-- a failed start can not be cleaned up through the public API: `stop()` refuses and a second `start()` trips the
-router's assertion, in every continuation that does not … there is none: the state is absorbing for start/stop. -/
-theorem failed_start_is_stuck (c : Ctx) (ha : c.active = false) (hu : c.used = false) (hr : c.routerUp = true)
-    (t u : Bool) :
-    step c .stop = ({ c with log := [] }, .exc .usage) ∧
-    step c (.start t u) = ({ c with log := [] }, .exc .assertion) := by
-  constructor
-  · simp [step, stop, stopHead, ha]
-  · simp [step, start, ha, hu, hr]
+theorem router_clean_reachable (t : Bool) (ops : List Op) : RouterClean (run (Ctx.init t) ops) :=
+  routerClean_run (routerClean_init t) ops
+
+/-- the same over every history: in every reachable state a failing start changes nothing -/
+theorem failed_start_leaves_nothing_reachable (t0 : Bool) (ops : List Op) (t u : Bool)
+    (hf : (step (run (Ctx.init t0) ops) (.start t u)).2 ≠ .ok) :
+    (step (run (Ctx.init t0) ops) (.start t u)).1.residue = (run (Ctx.init t0) ops).residue :=
+  (failed_start_leaves_nothing _ (router_clean_reachable t0 ops) t u hf).1
+
+example : (step (Ctx.init true) (.start true false)).2 = .exc .os ∧ (step (Ctx.init true) (.start false true)).2 = .exc .os :=
+  ⟨by decide, by decide⟩
+
+/-- … so the very same context can be started again once the fault is gone -/
+theorem start_retry_after_failure (c : Ctx) (hc : RouterClean c) (ha : c.active = false) (hu : c.used = false)
+    (hr : c.routerUp = false) (t u : Bool) (hf : (step c (.start t u)).2 ≠ .ok) :
+    (step (step c (.start t u)).1 (.start false false)).2 = .ok := by
+  have := hc hr
+  revert hf
+  cases hT : c.cfgTcp <;> cases t <;> cases u <;> simp_all [step, start, routerStop]
 
 /-! ## the process can start a new context -/
 
@@ -348,129 +344,106 @@ def qClean (t : Bool) : POp := .qstart true t false false []
 def CanStartAgain (p : Proc) (t : Bool) : Prop :=
   (pstep p (qClean t)).2 = .ok ∨ (pstep (pstep p .qstop).1 (qClean t)).2 = .ok
 
-/-- **False of the pinned tree** (full statement): after every history the process can start a context. -/
-def ProcessCanStartAgain : Prop := ∀ (ops : List POp) (t : Bool), CanStartAgain (prun Proc.init ops) t
+/-- a failed `qmi.start()` — invalid name, TCP or UDP bind failure, unreachable peer — leaves no singleton behind,
+and the context it gave up on holds nothing (no thread, handler, name, socket) -/
+theorem failed_qstart_leaves_nothing (p : Proc) (hn : p.single = none) (hd : DroppedEmpty p)
+    (v t tf uf : Bool) (peers : List Bool) (hf : (pstep p (.qstart v t tf uf peers)).2 ≠ .ok) :
+    (pstep p (.qstart v t tf uf peers)).1.single = none ∧ DroppedEmpty (pstep p (.qstart v t tf uf peers)).1 := by
+  refine ⟨?_, droppedEmpty_pstep hd _⟩
+  revert hf
+  simp only [pstep, pstep', Proc.clr, hn, Option.map_none, qstart]
+  cases v with
+  | false => intro _; rfl
+  | true =>
+    simp only [Bool.not_true, Bool.false_eq_true, if_false]
+    cases start (Ctx.init t) tf uf with
+    | mk c1 o1 =>
+      cases o1 with
+      | ok =>
+        simp only
+        cases connectPeers c1 peers 0 with
+        | mk c2 o2 =>
+          cases o2 with
+          | ok => intro h; exact absurd rfl h
+          | exc e => intro _; exact qstartFailed_single _ _ _
+          | hang => intro _; exact qstartFailed_single _ _ _
+      | exc e => intro _; exact qstartFailed_single _ _ _
+      | hang => intro _; exact qstartFailed_single _ _ _
 
-/-- negation witness (DESIGN §7 f): `qmi.start()` with the TCP port busy. Replayed on the real code by
-harness/props/c12.py (`cannot-start-again:singleton:tcp`). -/
-theorem process_can_start_again_false : ¬ ProcessCanStartAgain := by
-  intro h
-  have := h [.qstart true true true false []] true
-  revert this
-  unfold CanStartAgain
-  decide
+/-- over every history of the process: every context ever dropped by a failed `qmi.start()` is empty -/
+theorem dropped_contexts_empty (ops : List POp) : DroppedEmpty (prun Proc.init ops) :=
+  droppedEmpty_prun (fun _ h => by cases h) ops
 
-/-- the singleton is stuck for ever after a start that failed inside `QMI_Context.start()`: in every continuation
-(any mix of `qmi.start`, `qmi.stop`, `qmi.context`, and operations on the context) both `qmi.start()` and
-`qmi.stop()` raise `QMI_UsageException`. -/
-theorem singleton_stuck_forever (p : Proc) (hp : StuckP p) (ops : List POp) (v t tf uf : Bool) (peers : List Bool) :
-    (pstep (prun p ops) (.qstart v t tf uf peers)).2 = .exc .usage ∧
-    (pstep (prun p ops) .qstop).2 = .exc .usage ∧ ¬ CanStartAgain (prun p ops) t := by
-  have hs := stuckP_prun hp ops
-  generalize prun p ops = q at hs
-  have e1 := stuckP_qstart hs
-  have e2 := stuckP_qstop hs
-  refine ⟨(e1 v t tf uf peers).2, e2.2, ?_⟩
-  intro hc
-  rcases hc with hc | hc
-  · rw [qClean, (e1 true t false false []).2] at hc; cases hc
-  · have hs2 : StuckP (pstep q .qstop).1 := stuckP_pstep hs _
-    rw [qClean, (stuckP_qstart hs2 true t false false []).2] at hc; cases hc
+example : (pstep Proc.init (.qstart true true true false [true])).2 = .exc .os ∧
+    (pstep Proc.init (.qstart true true false false [true, false])).2 = .exc .connRefused ∧
+    (pstep Proc.init (.qstart true true false false [true, false])).1.dropped.length = 1 := ⟨by decide, by decide, by decide⟩
 
-example : StuckP (pstep Proc.init (.qstart true true true false [true])).1 ∧
-    (pstep Proc.init (.qstart true true true false [true])).2 = .exc .os :=
-  ⟨⟨_, rfl, by decide, by decide, by decide⟩, by decide⟩
-
-/-- … and that state is what a failing TCP or UDP bind produces -/
-theorem failed_qstart_is_stuck (t tf uf : Bool) (peers : List Bool) (hf : (t && tf) = true ∨ uf = true) :
-    StuckP (pstep Proc.init (.qstart true t tf uf peers)).1 := by
-  cases t <;> cases tf <;> cases uf <;> simp_all [StuckP, pstep, pstep', Proc.clr, Proc.init, qstart, start, Ctx.init]
-
-/-- what does hold: from every state in which the singleton is absent, or present, active and well-formed (with
-`Exception`-only stop handlers) — in particular after any `qmi.stop()` that returned, after a `qmi.start()` that
-failed only because a peer was unreachable, and whatever constructor / release / stop-handler faults occurred —
-the process can start a context again, at the latest after `qmi.stop()`. -/
-theorem process_can_start_again_partial (p : Proc) (hp : GoodP p) (t : Bool) : CanStartAgain p t := by
-  have hstart : ∀ t, (pstep Proc.init (qClean t)).2 = .ok := by intro t; cases t <;> decide
+/-- from every good state — no singleton, or an active well-formed one whose stop handlers raise at most `Exception`s —
+the process can start a context, at the latest after `qmi.stop()` -/
+theorem can_start_again_of_good (p : Proc) (hp : GoodP p) (t : Bool) : CanStartAgain p t := by
   rcases hp with hn | ⟨c, hc, hw, ha, hb⟩
-  · left
-    have : p = Proc.init := by cases p; simp_all [Proc.init]
-    rw [this]; exact hstart t
+  · left; exact qclean_ok p hn t
   · right
     have h0 : WF { c with log := [] } := hw.congr rfl rfl rfl rfl rfl
-    have : (pstep p .qstop).1 = Proc.init := by
+    have : (pstep p .qstop).1.single = none := by
       simp only [pstep, pstep', Proc.clr, hc, Option.map_some, qstop]
       rw [stop_ok h0 ha hb]
-      rfl
-    rw [this]; exact hstart t
+    exact qclean_ok _ this t
 
-example : GoodP (prun Proc.init [.qstart true true false false [true, false], .op (.make .task 1 true false true .raise),
-      .op (.tstart 1), .op (.addH .exc)]) ∧
-    (prun Proc.init [.qstart true true false false [true, false], .op (.make .task 1 true false true .raise),
-      .op (.tstart 1), .op (.addH .exc)]).single.isSome = true ∧
-    (pstep Proc.init (.qstart true true false false [true, false])).2 = .exc .connRefused := by
-  refine ⟨goodP_prun (Or.inl rfl) _ ?_, by decide, by decide⟩
-  intro o ho
-  simp only [List.mem_cons, List.not_mem_nil, or_false] at ho
-  rcases ho with rfl | rfl | rfl | rfl <;> simp [Harmless]
-
-/-- the good states are closed under everything except the three ways to leave them: a start step failing inside
-`QMI_Context.start()`, stopping the singleton's context behind `qmi`'s back, a non-`Exception` stop handler -/
+/-- the good states are closed under every operation and every fault — constructor, release step, stop handler
+(`Exception`), **every start step** — except two misuses: stopping the singleton's context behind `qmi`'s back
+(`qmi.context().stop()`), and a stop handler that raises a non-`Exception` `BaseException` -/
 theorem good_preserved (p : Proc) (hp : GoodP p) (o : POp) (ho : Harmless o) : GoodP (pstep p o).1 :=
   goodP_pstep hp ho
 
-/-- consequently: after any history of harmless operations, with every other fault allowed -/
-theorem process_can_start_again_after (ops : List POp) (h : ∀ o ∈ ops, Harmless o) (t : Bool) :
-    CanStartAgain (prun Proc.init ops) t := by
-  exact process_can_start_again_partial _ (goodP_prun (Or.inl rfl) ops h) t
+/-- **The process can always start a new context**: after every history of the process — any mix of `qmi.start`
+(with TCP / UDP / peer faults, invalid names), `qmi.stop`, `qmi.context`, make / remove / get / task and instrument
+operations with constructor, release and stop-handler faults — `qmi.start()` succeeds, directly or after `qmi.stop()`. -/
+theorem process_can_start_again (ops : List POp) (h : ∀ o ∈ ops, Harmless o) (t : Bool) :
+    CanStartAgain (prun Proc.init ops) t :=
+  can_start_again_of_good _ (goodP_prun (Or.inl rfl) ops h) t
+
+example : GoodP (prun Proc.init [.qstart true true true false [], .qstart true true false false [true, false],
+      .qstart true true false false [true], .op (.make .task 1 true false true .raise), .op (.tstart 1), .op (.addH .exc)]) ∧
+    (prun Proc.init [.qstart true true true false [], .qstart true true false false [true, false],
+      .qstart true true false false [true], .op (.make .task 1 true false true .raise), .op (.tstart 1), .op (.addH .exc)]).single.isSome = true := by
+  refine ⟨goodP_prun (Or.inl rfl) _ ?_, by decide⟩
+  intro o ho
+  simp only [List.mem_cons, List.not_mem_nil, or_false] at ho
+  rcases ho with rfl | rfl | rfl | rfl | rfl | rfl <;> simp [Harmless]
 
 
 /-! ## `stop()` racing `make_rpc_object()` from another thread (layer C, all schedules) -/
 
 /-- an active context holding only `$context` -/
 def raceCtx : Ctx := populated false []
-/-- … and one holding a running task whose release step raises, too -/
 def raceArgs : MakeArgs := { k := .rpc, n := 4, ctorF := false, relF := false, runB := .loop }
 def raceArgsF : MakeArgs := { k := .task, n := 4, ctorF := true, relF := true, runB := .raise }
 
-/-- **The race exists** (false of the pinned tree: "stopping a context … releases every remaining object exactly
-once, ends all its threads"): the maker publishes the manager in the object map (second locked block), `stop()`
-collects it under the lock and calls `unregister_message_handler` before the maker has registered it.  `stop()`
-raises `QMI_UnknownNameException`, the maker returns a proxy, the new object's thread and handler survive in a
-stopped context and its release step never runs.  Replayed on the real code under the deterministic scheduler
-(`conc:stop-raises:QMI_UnknownNameException`). -/
-theorem race_exists :
-    ((crun raceArgs (cinit raceCtx) [true, true, true, false, false, false, false, false, true] 11).outcome).race = true := by
-  decide
-
 private theorem race_half_true : ∀ s ∈ allScheds 10,
-    (((crun raceArgs (cinit raceCtx) (true :: s) 11).outcome).clean ||
-      ((crun raceArgs (cinit raceCtx) (true :: s) 11).outcome).race) = true := by
+    ((crun raceArgs (cinit raceCtx) (true :: s) 11).outcome).clean = true := by
   decide +kernel
 
 private theorem race_half_false : ∀ s ∈ allScheds 10,
-    (((crun raceArgs (cinit raceCtx) (false :: s) 11).outcome).clean ||
-      ((crun raceArgs (cinit raceCtx) (false :: s) 11).outcome).race) = true := by
+    ((crun raceArgs (cinit raceCtx) (false :: s) 11).outcome).clean = true := by
   decide +kernel
 
-/-- … and it is the **only** way `stop ‖ make` goes wrong: under every schedule both threads finish within 11
-steps and the outcome is either clean (stop returned; object map, handler map, threads, sockets empty; the maker got
-`ok` or an exception; every object that existed or was constructed was released exactly once) or the race above. -/
+/-- Under **every** schedule of `stop()` (context thread) and `make` (another thread) both finish within 11 steps and
+the outcome is clean: `stop()` returned; object map, handler map, threads, sockets are empty; the maker got `ok` or
+an exception; every object that existed or was constructed was released exactly once.  (The handler is registered
+inside the second locked block of `_internal_make_rpc_object`, so `stop()` never collects an unregistered manager;
+on the pinned tree the schedule `[M,M,M,S,S,S,S,S,M]` made `stop()` raise `QMI_UnknownNameException`.) -/
 theorem stop_make_all_schedules (sched : List Bool) :
-    ((crun raceArgs (cinit raceCtx) sched 11).outcome).clean = true ∨
-    ((crun raceArgs (cinit raceCtx) sched 11).outcome).race = true := by
-  refine forall_sched raceArgs (cinit raceCtx) 11
-    (fun st => st.outcome.clean = true ∨ st.outcome.race = true) ?_ sched
+    ((crun raceArgs (cinit raceCtx) sched 11).outcome).clean = true := by
+  refine forall_sched raceArgs (cinit raceCtx) 11 (fun st => st.outcome.clean = true) ?_ sched
   intro s hs
   simp only [allScheds, List.mem_flatMap] at hs
   obtain ⟨l, hl, hs⟩ := hs
   have hl' : l ∈ allScheds 10 := by simpa only [allScheds, List.mem_flatMap] using hl
   simp only [List.mem_cons, List.not_mem_nil, or_false] at hs
   rcases hs with rfl | rfl
-  · have := race_half_true l hl'
-    simpa [Bool.or_eq_true] using this
-  · have := race_half_false l hl'
-    simpa [Bool.or_eq_true] using this
+  · exact race_half_true l hl'
+  · exact race_half_false l hl'
 
 private theorem racef_half_true : ∀ s ∈ allScheds 10,
     ((crun raceArgsF (cinit raceCtx) (true :: s) 11).outcome).clean = true := by
@@ -480,8 +453,7 @@ private theorem racef_half_false : ∀ s ∈ allScheds 10,
     ((crun raceArgsF (cinit raceCtx) (false :: s) 11).outcome).clean = true := by
   decide +kernel
 
-/-- a maker whose constructor fails never races: every schedule ends clean (the reservation is rolled back, the
-failed object is not released, `stop()` returns) -/
+/-- the same for a maker whose constructor fails (the reservation is rolled back, the failed object is not released) -/
 theorem stop_make_failed_ctor_all_schedules (sched : List Bool) :
     ((crun raceArgsF (cinit raceCtx) sched 11).outcome).clean = true := by
   refine forall_sched raceArgsF (cinit raceCtx) 11 (fun st => st.outcome.clean = true) ?_ sched
